@@ -135,6 +135,27 @@ func genOnceWorld(r *simrt.RNG) world.World {
 
 func (C11) Gen(r *simrt.RNG, tier string) core.Case {
 	w := genOnceWorld(r)
+	// a run-once target (no outputs, or one output): called directly several times,
+	// through Redefine, and through the redefined function
+	if r.Chance(1, 4) {
+		t := world.Party{InForm: world.FormPositional, OutForm: world.FormPositional, In: append([]world.Slot{}, w.Parties[4].In...), Once: true, HasErr: r.Bool()}
+		if r.Bool() {
+			t.Out = []world.Slot{{Label: world.Label{Type: 11}}}
+		}
+		w.Parties = append(w.Parties, t)
+		ti := len(w.Parties) - 1
+		base := w.Ops[0].Args
+		n := 2 + r.Intn(3)
+		for i := 0; i < n; i++ {
+			switch r.Intn(4) {
+			case 0:
+				w.Ops = append(w.Ops, world.Op{Kind: world.OpRedefine, Target: ti, Args: base})
+				w.Ops = append(w.Ops, world.Op{Kind: world.OpCallRedef, Redef: len(w.Ops) - 1})
+			default:
+				w.Ops = append(w.Ops, world.Op{Kind: world.OpCall, Target: ti, Args: base})
+			}
+		}
+	}
 	if r.Chance(1, 2) {
 		// concurrent variant: spread the operations over 2-4 caller threads
 		w.Threads = 2 + r.Intn(3)
